@@ -425,6 +425,117 @@ fn run_executor_scenario(wtype: usize, body: &[usize], bwrite: usize, end_exec: 
     Ok("applied".into())
 }
 
+
+// ---------------------------------------------------------------------------------------------
+// command-set sweep: MULTI; <one command of the full command set>; EXEC  vs  the command sent directly
+// ---------------------------------------------------------------------------------------------
+
+const SWEEP_SEEDS: &[(&str, &[&str])] = &[
+    ("none", &[]),
+    ("string", &["SET k 10"]),
+    ("list", &["RPUSH k a b"]),
+    ("set", &["SADD k a b"]),
+    ("hash", &["HSET k a 1 b 2"]),
+    ("zset", &["ZADD k 1 a 2 b"]),
+];
+const SWEEP_UNORDERED: &[&str] = &["KEYS", "SMEMBERS", "HGETALL", "HKEYS", "HVALS", "SCAN", "HSCAN", "ZSCAN", "SPOP", "CONFIG"];
+
+fn sweep_skips(a: &Argv) -> bool {
+    let name = String::from_utf8_lossy(&a[0]).to_ascii_uppercase();
+    let sub = a.get(1).map(|x| String::from_utf8_lossy(x).to_ascii_uppercase()).unwrap_or_default();
+    // random / time-dependent replies; transaction control commands are the scenario part's subject
+    matches!(name.as_str(), "TIME" | "INFO" | "RANDOMKEY" | "MULTI" | "EXEC" | "DISCARD" | "WATCH" | "UNWATCH") || (name == "SPOP" && a.len() == 2) || (name == "ACL" && sub == "GENPASS")
+}
+
+/// the cmdgen key names k1/k2 become k/k2: with 2 shards k lives on shard 1 and k2 on shard 0
+fn sweep_instances() -> Vec<Argv> {
+    vh::cmdgen::all_instances(vh::cmdgen::Profile::Routing)
+        .into_iter()
+        .filter(|a| !a.is_empty() && !sweep_skips(a))
+        .map(|a| a.into_iter().map(|t| if t == b"k1" { b"k".to_vec() } else { t }).collect())
+        .collect()
+}
+
+/// multiset rendering of replies whose element order is not defined
+fn sweep_canon(cmd: &Argv, r: &RespValue) -> String {
+    fn flat(v: &RespValue, out: &mut Vec<String>) {
+        match v {
+            RespValue::Array(Some(items)) => items.iter().for_each(|i| flat(i, out)),
+            other => out.push(resp::show(other)),
+        }
+    }
+    let name = String::from_utf8_lossy(&cmd[0]).to_ascii_uppercase();
+    if SWEEP_UNORDERED.contains(&name.as_str()) {
+        let mut v = Vec::new();
+        flat(r, &mut v);
+        v.sort();
+        return format!("unordered[{}]", v.join(","));
+    }
+    resp::show(r)
+}
+
+fn run_sweep_case(shards: usize, seed: usize, inst: &Argv) -> Result<&'static str, (String, String)> {
+    polex::with_runtime(|rt| {
+        rt.block_on(async {
+            let mach = |e: String| ("harness-io".to_string(), e);
+            let mut m = World::new(shards);
+            let mut t = World::new(shards);
+            let mut name = String::from_utf8_lossy(&inst[0]).to_ascii_uppercase();
+            if matches!(name.as_str(), "ACL" | "CLIENT" | "CONFIG" | "OBJECT" | "DEBUG" | "SCRIPT" | "FUNCTION" | "COMMAND") && inst.len() > 1 {
+                name = format!("{name} {}", String::from_utf8_lossy(&inst[1]).to_ascii_uppercase());
+            }
+            let desc = format!("shards={shards} key k holds {} ; command `{}`", SWEEP_SEEDS[seed].0, resp::show_argv(inst));
+            for s in SWEEP_SEEDS[seed].1 {
+                m.one(false, &resp::line(s)).await.map_err(mach)?;
+                t.one(false, &resp::line(s)).await.map_err(mach)?;
+            }
+            let before = m.keyspace().await.map_err(mach)?;
+            let r = m.one(true, &resp::line("MULTI")).await.map_err(mach)?;
+            if resp::show(&r) != "+OK" {
+                return Err(("multi-reply".into(), format!("{desc}: MULTI replied {}", resp::show(&r))));
+            }
+            let q = m.one(true, inst).await.map_err(mach)?;
+            let queued = resp::show(&q) == "+QUEUED";
+            if !queued && !resp::is_err(&q) {
+                return Err((format!("queued-reply {name}"), format!("{desc}: inside MULTI it replied {} (a result before EXEC)", resp::show(&q))));
+            }
+            let mid = m.keyspace().await.map_err(mach)?;
+            if let Some((kind, d)) = dump::diff(&before, &mid) {
+                return Err((format!("effect-before-exec {kind}"), format!("{desc}: the keyspace changed before EXEC: {d}")));
+            }
+            let reply = m.one(true, &resp::line("EXEC")).await.map_err(mach)?;
+            let after = m.keyspace().await.map_err(mach)?;
+            if !queued {
+                if resp::err_code(&reply).as_deref() != Some("EXECABORT") {
+                    return Err(("execabort-missing".into(), format!("{desc}: queueing failed with {} but EXEC replied {}", resp::show(&q), resp::show(&reply))));
+                }
+                if let Some((kind, d)) = dump::diff(&before, &after) {
+                    return Err((format!("EXECABORT changed-keyspace {kind}"), format!("{desc}: {d}")));
+                }
+                return Ok("execabort");
+            }
+            let direct = t.one(true, inst).await.map_err(mach)?;
+            let got = match &reply {
+                RespValue::Array(Some(items)) if items.len() == 1 => sweep_canon(inst, &items[0]),
+                other => format!("<EXEC replied {}>", resp::show(other)),
+            };
+            let want = sweep_canon(inst, &direct);
+            if got != want {
+                return Err((format!("exec-reply body=[{name}]"), format!("{desc}: inside MULTI/EXEC the result is {got}, sent directly it is {want}")));
+            }
+            let twin_after = t.keyspace().await.map_err(mach)?;
+            if let Some((kind, d)) = dump::diff(&twin_after, &after) {
+                return Err((format!("exec-keyspace {kind}"), format!("{desc}: keyspace after EXEC differs from sending the command directly: {d}")));
+            }
+            let ping = m.one(true, &resp::line("PING")).await.map_err(mach)?;
+            if resp::show(&ping) != "+PONG" {
+                return Err(("still-in-multi".into(), format!("{desc}: PING after EXEC replied {}", resp::show(&ping))));
+            }
+            Ok("applied")
+        })
+    })
+}
+
 fn bodies(max_len: usize, alphabet: &[usize]) -> Vec<Vec<usize>> {
     let mut out = vec![vec![]];
     let mut cur: Vec<Vec<usize>> = vec![vec![]];
@@ -440,6 +551,21 @@ fn main() {
     vh::quiet_panics();
     if let Some(path) = &args.replay {
         let r = vh::report::load_replay(path);
+        if r["sweep"] == json!(true) {
+            let inst: Argv = r["command"].as_array().unwrap().iter().map(|t| resp::unescape(t.as_str().unwrap())).collect();
+            let seed = SWEEP_SEEDS.iter().position(|x| x.0 == r["key_type"].as_str().unwrap()).unwrap();
+            match run_sweep_case(r["shards"].as_u64().unwrap() as usize, seed, &inst) {
+                Ok(o) => {
+                    println!("replay: no violation (outcome {o})");
+                    std::process::exit(0);
+                }
+                Err((sig, detail)) => {
+                    println!("{detail}");
+                    println!("VIOLATION property=C05 replay={} ({sig})", path.display());
+                    std::process::exit(1);
+                }
+            }
+        }
         let res = if r["executor_level"] == json!(true) {
             let body: Vec<usize> = r["body"].as_array().unwrap().iter().map(|b| BODY_OPS.iter().position(|x| *x == b.as_str().unwrap()).unwrap()).collect();
             run_executor_scenario(r["wtype"].as_u64().unwrap() as usize, &body, r["bwrite"].as_u64().unwrap() as usize, r["end_exec"].as_bool().unwrap())
@@ -559,19 +685,40 @@ fn main() {
             ),
         }
     });
+    // command-set sweep
+    let insts = sweep_instances();
+    let sweep_items: Vec<(usize, usize, usize)> = shard_opts.iter().flat_map(|sh| (0..insts.len()).flat_map(move |i| (0..SWEEP_SEEDS.len()).map(move |s| (*sh, i, s)))).collect();
+    par::par_map(&sweep_items, |_, (shards, i, seed)| {
+        evals.fetch_add(1, Ordering::Relaxed);
+        let replay = json!({"sweep": true, "shards": shards, "key_type": SWEEP_SEEDS[*seed].0, "command": insts[*i].iter().map(|t| resp::esc(t)).collect::<Vec<_>>()});
+        match run_sweep_case(*shards, *seed, &insts[*i]) {
+            Ok(o) => {
+                *outcomes.lock().unwrap().entry(format!("sweep-{o}")).or_insert(0) += 1;
+            }
+            Err((sig, detail)) => {
+                if sig == "harness-io" {
+                    rep.violation("no-reply-or-hang end=EXEC".to_string(), detail, replay);
+                } else {
+                    rep.violation(sig, detail, replay);
+                }
+            }
+        }
+    });
     let outcomes = outcomes.into_inner().unwrap();
     let total = evals.load(Ordering::Relaxed);
     let coverage = json!({
-        "states": scenarios.len() + ex_items.len(),
+        "states": scenarios.len() + ex_items.len() + sweep_items.len(),
         "transitions": total,
         "traces_validated_against_impl": total,
         "evaluations": total,
-        "distinct_nontrivial": scenarios.len() + ex_items.len(),
+        "distinct_nontrivial": scenarios.len() + ex_items.len() + sweep_items.len(),
         "outcome_histogram": outcomes,
         "samples": [scenarios[scenarios.len() / 3].json(), scenarios[scenarios.len() - 1].json()],
         "connection_level_scenarios": scenarios.len(),
         "two_transactions_on_one_connection_scenarios": chained,
         "executor_level_scenarios": ex_items.len(),
+        "command_set_sweep": {"command_instances": insts.len(), "cases": sweep_items.len(), "key_types": SWEEP_SEEDS.iter().map(|x| x.0).collect::<Vec<_>>(),
+            "not_compared": "TIME, INFO, RANDOMKEY, ACL GENPASS, SPOP without count (random or time-dependent); MULTI/EXEC/DISCARD/WATCH/UNWATCH (covered by the scenarios)"},
         "exhaustive": true,
         "rule": "connection level: (all bodies of <=3 commands over 17 body ops incl. conditional SETs, multi-key commands across shards, run-time failure, unknown command, wrong arity, nested MULTI, WATCH inside MULTI) x {EXEC, DISCARD}; and WATCH scenarios: 10 watched-key types (incl. two-slot hash/list/zset) x 16 writes by a second connection (incl. content-permuting writes) x 4 positions x small bodies (plus re-WATCH / UNWATCH / WATCH k w right before MULTI); and two transactions in a row on one connection (first: bodies <=2 over {SET, INCR, unknown command, wrong arity} x {EXEC, DISCARD} x {no WATCH, WATCH kept, WATCH broken by B}; second: bodies <=1 x the same three WATCH variants); every scenario is executed on the real handler (2 connections, one state, strictly sequential) and on a twin server that runs the queued commands without MULTI; executor level: same oracle on a bare CommandExecutor",
     });
